@@ -263,6 +263,114 @@ func ruleR152(c *Ctx) {
 	} else {
 		c.Check(snap.Pos() > block.End(), key, snap.Pos(), "the input position remembered for the re-examination is taken behind the comment skipping", "the input position that peek restores for a re-examination is remembered in front of the comment skipping: the comment is scanned a second time and its line breaks are counted twice (all later line numbers are too large)")
 	}
+	// (e) the search for the end of a block comment starts behind the whole opener: the branch taken for the second rune
+	// '*' (decoded as s, w := DecodeRuneInString(...)) first moves the input - or slices it - by an offset that contains
+	// w, the width of that '*'. Otherwise the '*' of the opener pairs with a following '/': "/*/" is a complete comment
+	// and "/*/ ... */" ends too early.
+	key = "parser2.Tokenizer.peek#block-comment-opener-consumed"
+	{
+		var starBranch *ast.BlockStmt
+		var wObj types.Object
+		ast.Inspect(block, func(x ast.Node) bool {
+			ifs, ok := x.(*ast.IfStmt)
+			if !ok || starBranch != nil {
+				return true
+			}
+			be, ok := ast.Unparen(ifs.Cond).(*ast.BinaryExpr)
+			if !ok || be.Op != token.EQL {
+				return true
+			}
+			tv := info.Types[be.Y]
+			if tv.Value == nil {
+				return true
+			}
+			if v, ok := constant.Int64Val(tv.Value); !ok || v != '*' {
+				return true
+			}
+			id, ok := ast.Unparen(be.X).(*ast.Ident)
+			if !ok {
+				return true
+			}
+			// s, w := utf8.DecodeRuneInString(...)
+			if as, i := definingAssign(info, peek, info.ObjectOf(id)); as != nil && i == 0 && len(as.Lhs) == 2 {
+				if wid, ok := as.Lhs[1].(*ast.Ident); ok && wid.Name != "_" {
+					starBranch, wObj = ifs.Body, info.ObjectOf(wid)
+				}
+			}
+			return true
+		})
+		if starBranch == nil || wObj == nil {
+			c.Undecided(key, block.Pos(), "the branch for the second rune '*' of a block comment opener was not found")
+		} else {
+			mentionsW := func(e ast.Node) bool {
+				return e != nil && containsNode(e, func(y ast.Node) bool {
+					id, ok := y.(*ast.Ident)
+					return ok && info.ObjectOf(id) == wObj
+				})
+			}
+			isStr := func(e ast.Expr) bool {
+				sel, ok := ast.Unparen(e).(*ast.SelectorExpr)
+				return ok && sel.Sel.Name == "str"
+			}
+			// the first statement that touches the input decides
+			verdict, where := "", token.NoPos
+			for _, st := range starBranch.List {
+				if verdict != "" {
+					break
+				}
+				ast.Inspect(st, func(y ast.Node) bool {
+					if verdict != "" {
+						return false
+					}
+					switch t := y.(type) {
+					case *ast.AssignStmt:
+						if len(t.Lhs) == 1 && len(t.Rhs) == 1 && isStr(t.Lhs[0]) {
+							if se, ok := ast.Unparen(t.Rhs[0]).(*ast.SliceExpr); ok && isStr(se.X) {
+								where = t.Pos()
+								if mentionsW(se.Low) {
+									verdict = "ok"
+								} else {
+									verdict = "the input is advanced by " + nodeStr(c.Fset, se.Low) + ", which does not include the width of the '*'"
+								}
+								return false
+							}
+						}
+					case *ast.CallExpr:
+						// a search in the input: strings.Index(t.str[X:], ...), strings.Cut(t.str, ...), DecodeRuneInString(t.str)
+						for _, a := range t.Args {
+							switch ae := ast.Unparen(a).(type) {
+							case *ast.SliceExpr:
+								if isStr(ae.X) {
+									where = t.Pos()
+									if mentionsW(ae.Low) {
+										verdict = "ok"
+									} else {
+										verdict = "the end of the comment is searched in " + nodeStr(c.Fset, ae) + ", an offset that does not include the width of the '*'"
+									}
+									return false
+								}
+							case *ast.SelectorExpr:
+								if isStr(ae) {
+									where = t.Pos()
+									verdict = "the end of the comment is searched in the input before the opener was removed from it"
+									return false
+								}
+							}
+						}
+					}
+					return true
+				})
+			}
+			switch verdict {
+			case "ok":
+				c.OK(key, where, "the input is moved behind both runes of the opener before the end of the comment is looked for")
+			case "":
+				c.Undecided(key, starBranch.Pos(), "no statement that advances or searches the input found in the block comment branch")
+			default:
+				c.Violation(key, where, "%s: the '*' of the opener can serve as the '*' of the terminator, so \"/*/\" is a complete comment and the rest of the real comment is parsed as program text", verdict)
+			}
+		}
+	}
 	// (d) line counting in the block comment loop and in run
 	key = "parser2.Tokenizer.peek#block-comment-line-count"
 	counted := false
@@ -295,6 +403,30 @@ func ruleR152(c *Ctx) {
 				}) {
 					counted = true
 				}
+			}
+			return true
+		})
+	}
+	// the bulk form: t.line += <T>(strings.Count(<skipped text>, "\n"))
+	for _, sc := range scan {
+		ast.Inspect(sc, func(x ast.Node) bool {
+			as, ok := x.(*ast.AssignStmt)
+			if !ok || as.Tok != token.ADD_ASSIGN || len(as.Lhs) != 1 || !mentionsName(as.Lhs[0], "line") {
+				return true
+			}
+			if containsNode(as.Rhs[0], func(y ast.Node) bool {
+				call, ok := y.(*ast.CallExpr)
+				if !ok || len(call.Args) != 2 {
+					return false
+				}
+				cal := Callee(info, call)
+				if cal == nil || cal.Pkg() == nil || cal.Pkg().Path() != "strings" || cal.Name() != "Count" {
+					return false
+				}
+				tv := info.Types[call.Args[1]]
+				return tv.Value != nil && tv.Value.Kind() == constant.String && constant.StringVal(tv.Value) == "\n"
+			}) {
+				counted = true
 			}
 			return true
 		})
@@ -370,7 +502,7 @@ func ruleR153(c *Ctx) {
 			if !ok {
 				return true
 			}
-			if sel, ok := ast.Unparen(call.Fun).(*ast.SelectorExpr); ok && sel.Sel.Name == "WriteRune" && len(call.Args) == 1 {
+			if sel, ok := ast.Unparen(call.Fun).(*ast.SelectorExpr); ok && (sel.Sel.Name == "WriteRune" || sel.Sel.Name == "WriteByte") && len(call.Args) == 1 {
 				writtenExprs = append(writtenExprs, call.Args[0])
 				if tv := info.Types[call.Args[0]]; tv.Value != nil {
 					if v, ok := constant.Int64Val(tv.Value); ok {
@@ -599,10 +731,26 @@ func ruleR154(c *Ctx) {
 					digit = i
 				}
 			}
-			typs, images, resolved := emittedTokens(c, root, info, cc, nil, 0)
+			// the tag of the switch has the value of this case constant
+			bind := map[types.Object]constant.Value{}
+			if sw, ok := c.Parent(c.Parent(cc)).(*ast.SwitchStmt); ok {
+				switch tg := sw.Tag.(type) {
+				case *ast.Ident:
+					bind[info.ObjectOf(tg)] = tv.Value
+				}
+				if as, ok := sw.Init.(*ast.AssignStmt); ok && len(as.Lhs) == 1 {
+					if id, ok := as.Lhs[0].(*ast.Ident); ok {
+						bind[info.ObjectOf(id)] = tv.Value
+					}
+				}
+			}
+			typs, images, resolved := emittedTokens(c, root, info, cc, bind, 0)
 			if !resolved {
 				unresolved = true
 				continue
+			}
+			if len(cc.List) > 1 {
+				// a case with several constants: the emitted tokens were computed for this constant only
 			}
 			if len(images) != 2 || images[0] != "^" || images[1] != fmt.Sprint(digit) || len(typs) != 2 || typs[0] != "tOperate" || typs[1] != "tNumber" {
 				problems = append(problems, fmt.Sprintf("%c emits %v %v instead of the operator ^ and the number %d", rune(k), typs, images, digit))
@@ -758,6 +906,12 @@ func emittedTokens(c *Ctx, pkg *packages.Package, info *types.Info, n ast.Node, 
 			} else if id, ok := ast.Unparen(t.Elts[1]).(*ast.Ident); ok && bind != nil {
 				v = bind[info.ObjectOf(id)]
 			}
+			if v == nil && bind != nil {
+				// an image computed from the scanned rune and constant tables: strconv.Itoa(strings.IndexRune(digits, n))
+				if cv, ok := constEval(info, t.Elts[1], bind); ok {
+					v = cv
+				}
+			}
 			if v != nil && v.Kind() == constant.String {
 				images = append(images, constant.StringVal(v))
 			} else {
@@ -906,7 +1060,7 @@ func ruleR157(c *Ctx) {
 				if !ok {
 					return true
 				}
-				if sel.Sel.Name == "WriteRune" && len(call.Args) == 1 {
+				if (sel.Sel.Name == "WriteRune" || sel.Sel.Name == "WriteByte") && len(call.Args) == 1 {
 					arg := ast.Unparen(call.Args[0])
 					if info.Types[arg].Value != nil {
 						return true
@@ -1058,7 +1212,7 @@ func ruleR158(c *Ctx) {
 				return true
 			}
 			sel, ok := ast.Unparen(call.Fun).(*ast.SelectorExpr)
-			if !ok || sel.Sel.Name != "WriteRune" {
+			if !ok || (sel.Sel.Name != "WriteRune" && sel.Sel.Name != "WriteByte") {
 				return true
 			}
 			if a, ok := ast.Unparen(call.Args[0]).(*ast.Ident); ok && info.ObjectOf(a) == validated {
@@ -1100,5 +1254,67 @@ func ruleR158(c *Ctx) {
 	}
 	if n == 0 {
 		c.Undecided("parser2.Tokenizer.readSkip", token.NoPos, "reader not found")
+	}
+}
+
+// ---------------------------------------------------------------------------
+// R15.9 string literals are decoded once.
+//
+// The tokenizer decodes the escapes of a string literal; the image of the
+// token is the text the literal denotes. The string converter that a
+// generator hands to the parser (FromString of the value package, the
+// StringConverter hook) receives that decoded text: it has to wrap it as it
+// is. A converter that processes escapes again (\\uXXXX, \\n, unquoting) decodes
+// twice: the literal "\\\\u0041" (backslash, u0041) becomes "A".
+
+func ruleR159(c *Ctx) {
+	n := 0
+	for _, pkg := range c.RepoPkgs {
+		if strings.Contains(pkg.PkgPath, "/example") || strings.HasSuffix(pkg.PkgPath, "/gen") {
+			continue
+		}
+		info := pkg.TypesInfo
+		for _, f := range pkg.Syntax {
+			for _, d := range f.Decls {
+				fd, ok := d.(*ast.FuncDecl)
+				if !ok || fd.Body == nil || fd.Recv == nil || fd.Name.Name != "FromString" {
+					continue
+				}
+				if fd.Type.Params == nil || len(fd.Type.Params.List) != 1 || len(fd.Type.Params.List[0].Names) != 1 {
+					continue
+				}
+				pobj := info.Defs[fd.Type.Params.List[0].Names[0]]
+				if b, ok := pobj.Type().Underlying().(*types.Basic); !ok || b.Info()&types.IsString == 0 {
+					continue
+				}
+				n++
+				key := declName(pkg, fd) + "#identity"
+				// every call that receives the text (or something computed from it) other than a conversion to a string type
+				var bad *ast.CallExpr
+				ast.Inspect(fd.Body, func(x ast.Node) bool {
+					call, ok := x.(*ast.CallExpr)
+					if !ok || bad != nil {
+						return true
+					}
+					if tv, ok := info.Types[call.Fun]; ok && tv.IsType() {
+						return true // conversion
+					}
+					// the adapter of a function to the interface calls its receiver: func (f ConverterFunc) FromString(s) V { return f(s) }
+					if id, ok := ast.Unparen(call.Fun).(*ast.Ident); ok && len(fd.Recv.List[0].Names) == 1 && info.ObjectOf(id) == info.Defs[fd.Recv.List[0].Names[0]] {
+						return true
+					}
+					bad = call
+					return true
+				})
+				if bad != nil {
+					c.Violation(key, bad.Pos(), "the string converter does more than wrapping the text it is given (%s): the tokenizer has already decoded the escapes of the literal, so any further processing of the text decodes a second time - a literal that denotes a backslash followed by letters (a Windows path, a regular expression, the six characters backslash-u-0-0-4-1) changes its value", nodeStr(c.Fset, bad))
+				} else {
+					c.OK(key, fd.Pos(), "the string converter wraps the decoded text of the literal as it is")
+				}
+			}
+		}
+	}
+	if n == 0 {
+		c.Undecided("repo#string-converters", token.NoPos, "no FromString(string) method found (the string converter of the value package is expected)")
 	}
 }
